@@ -39,6 +39,39 @@ MaxOf(a, b) == IF a > b THEN a ELSE b
 Drop(s, n) == SubSeq(s, n + 1, Len(s))        \* s without its first n items
 Take(s, n) == SubSeq(s, 1, n)
 
+(***************************************************************************)
+(* Scale.  TLC evaluates a RECURSIVE operator with one interpreter context *)
+(* per level, and its cost per level grows with the depth: a recursion     *)
+(* over the 8 000 characters of a long version took minutes.  Everything   *)
+(* that walks a whole text is therefore written without recursion: with    *)
+(* SelectSeq (module Sequences) and FoldLeft (CommunityModules             *)
+(* SequencesExt), both implemented in Java and linear.  The recursive      *)
+(* formulations are kept as ...Ref and MC_TextEquiv checks that the two    *)
+(* agree on every sequence of a bounded domain.                            *)
+(***************************************************************************)
+LOCAL INSTANCE SequencesExt
+LOCAL INSTANCE TLC
+\* (TLCEval: the accumulator is made a concrete value at every step; otherwise a function built
+\* with EXCEPT stays a lazily stacked chain of updates whose unevaluated pieces are recomputed
+\* at every access)
+FoldL(op(_, _), base, seq) == FoldLeft(LAMBDA acc, x : TLCEval(op(acc, x)), base, seq)
+\* TLC passes operator arguments unevaluated and evaluates them again at every use inside a
+\* LAMBDA or a function constructor (an argument such as Decode(rec) would be recomputed once per
+\* character).  A variable bound in a set comprehension holds a value: Let1 / Let2 evaluate their
+\* arguments once and apply Op to the values.
+Let1(a, Op(_)) == CHOOSE r \in {Op(x) : x \in {a}} : TRUE
+Let2(a, b, Op(_, _)) == CHOOSE r \in {Op(x, y) : x \in {a}, y \in {b}} : TRUE
+\* v[k] for a computed v.  (Writing Op(...)[k] makes TLC evaluate the whole of Op(...) in its
+\* "keep lazy" mode, in which nothing is cached: minutes instead of milliseconds on long inputs.)
+Nth(v, k) == Let1(v, LAMBDA x : x[k])
+Idx(s) == [i \in 1..Len(s) |-> i]
+\* the indices of s, ascending, at which Test holds
+Where(s, Test(_)) == SelectSeq(Idx(s), Test)
+\* first index in lo..hi at which Test holds, 0 if none
+FirstWhere(lo, hi, Test(_)) ==
+    LET w == SelectSeq([k \in 1..(IF hi >= lo THEN hi - lo + 1 ELSE 0) |-> lo + k - 1], Test)
+    IN IF w = <<>> THEN 0 ELSE w[1]
+
 StartsWith(s, p) == Len(p) <= Len(s) /\ SubSeq(s, 1, Len(p)) = p
 EndsWith(s, p)   == Len(p) <= Len(s) /\ SubSeq(s, Len(s) - Len(p) + 1, Len(s)) = p
 StartsWithAt(s, i, p) ==   \* p occurs in s at 1-based position i
@@ -46,62 +79,105 @@ StartsWithAt(s, i, p) ==   \* p occurs in s at 1-based position i
 HasSub(s, p) == \E i \in 1..(Len(s) - Len(p) + 1) : StartsWithAt(s, i, p)
 Has(s, c) == \E i \in 1..Len(s) : s[i] = c
 
-\* positions (1-based) of code c in s, ascending
+\* positions (1-based) of code c in s
 Positions(s, c) == {i \in 1..Len(s) : s[i] = c}
-FirstPos(s, c) == IF Has(s, c) THEN CHOOSE i \in Positions(s, c) : \A j \in Positions(s, c) : i <= j ELSE 0
-LastPos(s, c)  == IF Has(s, c) THEN CHOOSE i \in Positions(s, c) : \A j \in Positions(s, c) : i >= j ELSE 0
-FirstPosIn(s, S) == LET P == {i \in 1..Len(s) : s[i] \in S}
-                    IN IF P = {} THEN 0 ELSE CHOOSE i \in P : \A j \in P : i <= j
+FirstPosV(s, c) == LET w == Where(s, LAMBDA i : s[i] = c) IN IF w = <<>> THEN 0 ELSE w[1]
+FirstPos(s, c) == Let1(s, LAMBDA x : FirstPosV(x, c))
+LastPosV(s, c) == LET w == Where(s, LAMBDA i : s[i] = c) IN IF w = <<>> THEN 0 ELSE w[Len(w)]
+LastPos(s, c) == Let1(s, LAMBDA x : LastPosV(x, c))
+FirstPosInV(s, S) == LET w == Where(s, LAMBDA i : s[i] \in S) IN IF w = <<>> THEN 0 ELSE w[1]
 
+FirstPosIn(s, S) == Let1(s, LAMBDA x : FirstPosInV(x, S))
 \* first position >= from at which pattern p occurs in s, 0 if none
-RECURSIVE FindFrom(_, _, _)
-FindFrom(s, p, from) ==
-    IF from + Len(p) - 1 > Len(s) THEN 0
-    ELSE IF StartsWithAt(s, from, p) THEN from
-    ELSE FindFrom(s, p, from + 1)
+FindFromV(s, p, from) == FirstWhere(from, Len(s) - Len(p) + 1, LAMBDA i : StartsWithAt(s, i, p))
+FindFrom(s, p, from) == Let1(s, LAMBDA x : FindFromV(x, p, from))
 Find(s, p) == FindFrom(s, p, 1)
-RECURSIVE RFindFrom(_, _, _)
-RFindFrom(s, p, from) ==
-    IF from < 1 THEN 0
-    ELSE IF StartsWithAt(s, from, p) THEN from
-    ELSE RFindFrom(s, p, from - 1)
+\* last position <= from at which p occurs in s, 0 if none
+RFindFromV(s, p, from) ==
+    LET w == SelectSeq([k \in 1..(IF from >= 1 THEN from ELSE 0) |-> k], LAMBDA i : StartsWithAt(s, i, p))
+    IN IF w = <<>> THEN 0 ELSE w[Len(w)]
+RFindFrom(s, p, from) == Let1(s, LAMBDA x : RFindFromV(x, p, from))
 RFind(s, p) == RFindFrom(s, p, Len(s) - Len(p) + 1)
 
+\* start positions of the non-overlapping occurrences of p (non-empty) in s, left to right
+OccurrencesV(s, p) ==
+    LET cand == SelectSeq([k \in 1..(IF Len(s) >= Len(p) THEN Len(s) - Len(p) + 1 ELSE 0) |-> k], LAMBDA i : StartsWithAt(s, i, p))
+        r == FoldL(LAMBDA st, i : IF i >= st[1] THEN <<i + Len(p), Append(st[2], i)>> ELSE st, <<1, <<>>>>, cand)
+    IN r[2]
+
+Occurrences(s, p) == Let1(s, LAMBDA x : OccurrencesV(x, p))
+\* the pieces of s between the (ascending) separator positions P
+SplitAtV(s, P) ==
+    [k \in 1..(Len(P) + 1) |-> SubSeq(s, IF k = 1 THEN 1 ELSE P[k - 1] + 1, IF k > Len(P) THEN Len(s) ELSE P[k] - 1)]
+SplitAt(s, P) == Let2(s, P, LAMBDA x, y : SplitAtV(x, y))
 \* split at every occurrence of code c (like Rust's split(c)): always >= 1 piece
+SplitOnV(s, c) == SplitAt(s, Where(s, LAMBDA i : s[i] = c))
+
+SplitOn(s, c) == Let1(s, LAMBDA x : SplitOnV(x, c))
+\* split at codes in set S, dropping empty pieces (split_whitespace-like)
+FieldsV(s, S) == SelectSeq(SplitAt(s, Where(s, LAMBDA i : s[i] \in S)), LAMBDA x : x # <<>>)
+
+Fields(s, S) == Let1(s, LAMBDA x : FieldsV(x, S))
+TrimLeftV(s, S) == LET w == Where(s, LAMBDA i : s[i] \notin S) IN IF w = <<>> THEN <<>> ELSE SubSeq(s, w[1], Len(s))
+TrimLeft(s, S) == Let1(s, LAMBDA x : TrimLeftV(x, S))
+TrimRightV(s, S) == LET w == Where(s, LAMBDA i : s[i] \notin S) IN IF w = <<>> THEN <<>> ELSE SubSeq(s, 1, w[Len(w)])
+TrimRight(s, S) == Let1(s, LAMBDA x : TrimRightV(x, S))
+TrimV(s, S) == LET w == Where(s, LAMBDA i : s[i] \notin S) IN IF w = <<>> THEN <<>> ELSE SubSeq(s, w[1], w[Len(w)])
+
+Trim(s, S) == Let1(s, LAMBDA x : TrimV(x, S))
+\* Rust str::lines(): split at \n, strip one trailing \r of each line, a
+\* final empty piece (text ending in \n, or empty text) yields nothing.
+StripCR(l) == IF l # <<>> /\ l[Len(l)] = CR THEN SubSeq(l, 1, Len(l) - 1) ELSE l
+LinesV(ps) == LET n  == Len(ps)
+                  lastEmpty == ps[n] = <<>>
+              IN [i \in 1..(IF lastEmpty THEN n - 1 ELSE n) |-> StripCR(ps[i])]
+Lines(s) == Let1(SplitOn(s, NL), LinesV)
+
+\* concatenation of a sequence of sequences, each followed by sep
+\* (by halves: the recursion is only log2(n) deep and the copying n log n; a left fold would copy
+\* the growing result n times, which is quadratic for the 90 000 pieces of a long text)
+RECURSIVE FlatDC(_, _, _)
+FlatDC(ss, lo, hi) == IF lo > hi THEN <<>>
+                      ELSE IF lo = hi THEN ss[lo]
+                      ELSE LET mid == (lo + hi) \div 2 IN FlatDC(ss, lo, mid) \o FlatDC(ss, mid + 1, hi)
+FlattenV(ss) == FlatDC(ss, 1, Len(ss))
+Flatten(ss) == Let1(ss, LAMBDA x : FlattenV(x))
+JoinTerm(ss, sep) == Flatten([i \in 1..Len(ss) |-> ss[i] \o sep])
+
+\* ---- the recursive formulations (reference; MC_TextEquiv) --------------------------------
+RECURSIVE FindFromRef(_, _, _)
+FindFromRef(s, p, from) ==
+    IF from + Len(p) - 1 > Len(s) THEN 0
+    ELSE IF StartsWithAt(s, from, p) THEN from
+    ELSE FindFromRef(s, p, from + 1)
+RECURSIVE RFindFromRef(_, _, _)
+RFindFromRef(s, p, from) ==
+    IF from < 1 THEN 0
+    ELSE IF StartsWithAt(s, from, p) THEN from
+    ELSE RFindFromRef(s, p, from - 1)
+RECURSIVE OccurrencesFrom(_, _, _)
+OccurrencesFrom(s, p, from) == LET i == FindFromRef(s, p, from) IN IF i = 0 THEN <<>> ELSE <<i>> \o OccurrencesFrom(s, p, i + Len(p))
+OccurrencesRef(s, p) == OccurrencesFrom(s, p, 1)
 RECURSIVE SplitOnAcc(_, _, _, _)
 SplitOnAcc(s, c, i, cur) ==
     IF i > Len(s) THEN <<cur>>
     ELSE IF s[i] = c THEN <<cur>> \o SplitOnAcc(s, c, i + 1, <<>>)
     ELSE SplitOnAcc(s, c, i + 1, Append(cur, s[i]))
-SplitOn(s, c) == SplitOnAcc(s, c, 1, <<>>)
-
-\* split at codes in set S, dropping empty pieces (split_whitespace-like)
+SplitOnRef(s, c) == SplitOnAcc(s, c, 1, <<>>)
 RECURSIVE FieldsAcc(_, _, _, _)
 FieldsAcc(s, S, i, cur) ==
     IF i > Len(s) THEN (IF cur = <<>> THEN <<>> ELSE <<cur>>)
     ELSE IF s[i] \in S THEN (IF cur = <<>> THEN <<>> ELSE <<cur>>) \o FieldsAcc(s, S, i + 1, <<>>)
     ELSE FieldsAcc(s, S, i + 1, Append(cur, s[i]))
-Fields(s, S) == FieldsAcc(s, S, 1, <<>>)
-
-RECURSIVE TrimLeft(_, _)
-TrimLeft(s, S) == IF s # <<>> /\ s[1] \in S THEN TrimLeft(Tail(s), S) ELSE s
-RECURSIVE TrimRight(_, _)
-TrimRight(s, S) == IF s # <<>> /\ s[Len(s)] \in S THEN TrimRight(SubSeq(s, 1, Len(s) - 1), S) ELSE s
-Trim(s, S) == TrimRight(TrimLeft(s, S), S)
-
-\* Rust str::lines(): split at \n, strip one trailing \r of each line, a
-\* final empty piece (text ending in \n, or empty text) yields nothing.
-StripCR(l) == IF l # <<>> /\ l[Len(l)] = CR THEN SubSeq(l, 1, Len(l) - 1) ELSE l
-Lines(s) == LET ps == SplitOn(s, NL)
-                n  == Len(ps)
-                qs == IF ps[n] = <<>> THEN SubSeq(ps, 1, n - 1) ELSE ps
-            IN [i \in 1..Len(qs) |-> StripCR(qs[i])]
-
-\* concatenation of a sequence of sequences, each followed by sep
-RECURSIVE JoinTerm(_, _)
-JoinTerm(ss, sep) == IF ss = <<>> THEN <<>> ELSE Head(ss) \o sep \o JoinTerm(Tail(ss), sep)
-RECURSIVE Flatten(_)
-Flatten(ss) == IF ss = <<>> THEN <<>> ELSE Head(ss) \o Flatten(Tail(ss))
+FieldsRef(s, S) == FieldsAcc(s, S, 1, <<>>)
+RECURSIVE TrimLeftRef(_, _)
+TrimLeftRef(s, S) == IF s # <<>> /\ s[1] \in S THEN TrimLeftRef(Tail(s), S) ELSE s
+RECURSIVE TrimRightRef(_, _)
+TrimRightRef(s, S) == IF s # <<>> /\ s[Len(s)] \in S THEN TrimRightRef(SubSeq(s, 1, Len(s) - 1), S) ELSE s
+RECURSIVE JoinTermRef(_, _)
+JoinTermRef(ss, sep) == IF ss = <<>> THEN <<>> ELSE Head(ss) \o sep \o JoinTermRef(Tail(ss), sep)
+RECURSIVE FlattenRef(_)
+FlattenRef(ss) == IF ss = <<>> THEN <<>> ELSE Head(ss) \o FlattenRef(Tail(ss))
 
 \* sequences as sets / filters
 SelectSeqIdx(s, Test(_)) == SelectSeq([i \in 1..Len(s) |-> i], Test)
@@ -112,17 +188,25 @@ RangeOf(s) == {s[i] : i \in 1..Len(s)}
 (* any length is normalised (leading zeros removed; zero is <<>>) and       *)
 (* compared by length, then lexicographically.                             *)
 (***************************************************************************)
-RECURSIVE StripZeros(_)
-StripZeros(d) == IF d # <<>> /\ d[1] = 48 THEN StripZeros(Tail(d)) ELSE d
+StripZeros(d) == TrimLeft(d, {48})
+RECURSIVE StripZerosRef(_)
+StripZerosRef(d) == IF d # <<>> /\ d[1] = 48 THEN StripZerosRef(Tail(d)) ELSE d
 
-RECURSIVE LexCmp(_, _)       \* -1, 0, 1 on integer sequences
-LexCmp(a, b) ==
+\* -1, 0, 1 on integer sequences: the first differing position decides, then the length
+LexCmpV(a, b) ==
+    LET m == IF Len(a) < Len(b) THEN Len(a) ELSE Len(b)
+        i == FirstWhere(1, m, LAMBDA j : a[j] # b[j])
+    IN IF i # 0 THEN (IF a[i] < b[i] THEN -1 ELSE 1)
+       ELSE IF Len(a) < Len(b) THEN -1 ELSE IF Len(a) > Len(b) THEN 1 ELSE 0
+LexCmp(a, b) == Let2(a, b, LAMBDA x, y : LexCmpV(x, y))
+RECURSIVE LexCmpRef(_, _)
+LexCmpRef(a, b) ==
     IF a = <<>> /\ b = <<>> THEN 0
     ELSE IF a = <<>> THEN -1
     ELSE IF b = <<>> THEN 1
     ELSE IF a[1] < b[1] THEN -1
     ELSE IF a[1] > b[1] THEN 1
-    ELSE LexCmp(Tail(a), Tail(b))
+    ELSE LexCmpRef(Tail(a), Tail(b))
 
 NumCmp(a, b) ==              \* a, b normalised digit sequences
     IF Len(a) < Len(b) THEN -1
@@ -198,25 +282,38 @@ CharAt(b, i) ==
 \* <<n, st>>: n = length of the longest well-formed prefix; st = "ok" if that
 \* is the whole sequence, "incomplete" if the rest is a proper prefix of a
 \* character, "invalid" otherwise.
-RECURSIVE Utf8Scan(_, _)
-Utf8Scan(b, i) ==
+Utf8ScanV(b, i0) ==
+    LET step(st, i) == IF st[2] # "ok" \/ i < st[1] THEN st
+                       ELSE LET k == CharAt(b, i)
+                            IN IF k > 0 THEN <<i + k, "ok">>
+                               ELSE IF k = -1 THEN <<i, "incomplete">> ELSE <<i, "invalid">>
+        r == FoldL(step, <<i0, "ok">>, SubSeq(Idx(b), i0, Len(b)))
+    IN IF r[2] = "ok" THEN <<Len(b), "ok">> ELSE <<r[1] - 1, r[2]>>
+Utf8Scan(b, i0) == Let1(b, LAMBDA x : Utf8ScanV(x, i0))
+RECURSIVE Utf8ScanRef(_, _)
+Utf8ScanRef(b, i) ==
     IF i > Len(b) THEN <<Len(b), "ok">>
     ELSE LET k == CharAt(b, i)
-         IN IF k > 0 THEN Utf8Scan(b, i + k)
+         IN IF k > 0 THEN Utf8ScanRef(b, i + k)
             ELSE IF k = -1 THEN <<i - 1, "incomplete">>
             ELSE <<i - 1, "invalid">>
-ValidUtf8(b) == Utf8Scan(b, 1)[2] = "ok"
+ValidUtf8(b) == Nth(Utf8Scan(b, 1), 2) = "ok"
 
-\* decode a well-formed UTF-8 byte sequence into scalar values
-RECURSIVE Utf8Decode(_, _)
-Utf8Decode(b, i) ==
+\* decode a well-formed UTF-8 byte sequence into scalar values: in well-formed UTF-8 the
+\* characters start exactly at the bytes that are not continuation bytes
+CharValue(b, i) ==
+    LET k == CharAt(b, i) IN
+    IF k = 1 THEN b[i]
+    ELSE IF k = 2 THEN (b[i] - 192) * 64 + (b[i+1] - 128)
+    ELSE IF k = 3 THEN (b[i] - 224) * 4096 + (b[i+1] - 128) * 64 + (b[i+2] - 128)
+    ELSE (b[i] - 240) * 262144 + (b[i+1] - 128) * 4096 + (b[i+2] - 128) * 64 + (b[i+3] - 128)
+Utf8DecodeV(b, i0) == LET st == SelectSeq(SubSeq(Idx(b), i0, Len(b)), LAMBDA i : b[i] \notin Cont)
+                     IN [k \in 1..Len(st) |-> CharValue(b, st[k])]
+Utf8Decode(b, i0) == Let1(b, LAMBDA x : Utf8DecodeV(x, i0))
+RECURSIVE Utf8DecodeRef(_, _)
+Utf8DecodeRef(b, i) ==
     IF i > Len(b) THEN <<>>
-    ELSE LET k == CharAt(b, i)
-             v == IF k = 1 THEN b[i]
-                  ELSE IF k = 2 THEN (b[i] - 192) * 64 + (b[i+1] - 128)
-                  ELSE IF k = 3 THEN (b[i] - 224) * 4096 + (b[i+1] - 128) * 64 + (b[i+2] - 128)
-                  ELSE (b[i] - 240) * 262144 + (b[i+1] - 128) * 4096 + (b[i+2] - 128) * 64 + (b[i+3] - 128)
-         IN <<v>> \o Utf8Decode(b, i + k)
+    ELSE <<CharValue(b, i)>> \o Utf8DecodeRef(b, i + CharAt(b, i))
 Decode(b) == Utf8Decode(b, 1)
 
 \* encode scalar values as UTF-8 bytes
@@ -225,6 +322,9 @@ EncodeChar(v) ==
     ELSE IF v < 2048 THEN <<192 + (v \div 64), 128 + (v % 64)>>
     ELSE IF v < 65536 THEN <<224 + (v \div 4096), 128 + ((v \div 64) % 64), 128 + (v % 64)>>
     ELSE <<240 + (v \div 262144), 128 + ((v \div 4096) % 64), 128 + ((v \div 64) % 64), 128 + (v % 64)>>
-RECURSIVE Encode(_)
-Encode(s) == IF s = <<>> THEN <<>> ELSE EncodeChar(Head(s)) \o Encode(Tail(s))
-=============================================================================
+EncodeV(s) == Flatten([i \in 1..Len(s) |-> EncodeChar(s[i])])
+Encode(s) == Let1(s, LAMBDA x : EncodeV(x))
+RECURSIVE EncodeRef(_)
+EncodeRef(s) == IF s = <<>> THEN <<>> ELSE EncodeChar(Head(s)) \o EncodeRef(Tail(s))
+=========================================================================
+====
